@@ -156,8 +156,14 @@ def fixed_cases(reg):
                             (100027, ("i", 12), 100028, ("car", 100006)), (100029, ("s", b""), 100030, ("n",))])),
           ("v", 100031, ("aref", 100018)), ("v", 100032, A(100033, 0, [(100034, ("l", 1), 100035, ("i", 1))])),
           ("v", 100036, A(100037, 0, []))]
+    # named variables (ScriptVariable::Archive) and a ScriptVariableList: names that the loading dictionary has never seen,
+    # a predefined one, a Ref to a variable of the list, an unnamed variable
+    t6 = [("v", 100001, ("i", 7)), ("nv", 100002, b"c10 never seen name", ("ref", 100001)), ("nv", 100003, None, ("s", b"x")),
+          ("vl", 0, 0, 0, [], [(100004, b"alpha", ("i", 1)), (100005, b"beta", ("s", b"z")), (100006, b"gamma", ("ref", 100004)),
+                               (100007, b"self", ("k", b"k")), (100008, b"delta", ("l", 0))]),
+          ("vl", 0, 0, 0, [], []), ("vl", 0, 0, 0, [], [(100009, b"only", ("n",))])]
     cases = []
-    for i, t in enumerate([t1, t2, t3, t4, t5]):
+    for i, t in enumerate([t1, t2, t3, t4, t5, t6]):
         cases.append(("fixed:%d" % i, (1, b"TEST", b"Morfuse test archive"), t))
     return cases
 
@@ -361,7 +367,7 @@ def check(ctx):
         return d.run_batch([(name, [reg, archgen.arc_line(*c)] + extra) for (name, _, _, extra), c in zip(batch, fixed)])
     for i in range(ncases):
         n = rng.choice([1, 5, 20, 60, 200])
-        items = archgen.gen_case(rng, n, maxstr=300 if rng.random() < 0.9 else 6000)
+        items = archgen.gen_case(rng, n, maxstr=300 if rng.random() < 0.9 else 6000, named=True)
         info = archgen.gen_info(rng)
         nwf += archgen.well_formed(items)
         maxobj = max(maxobj, len(archgen.registered(items)))
@@ -415,6 +421,16 @@ def count_kinds(items, hist):
     for it in items:
         if it[0] == "v":
             count_vkinds(it[2], hist)
+            continue
+        if it[0] == "nv":
+            hist["nv"] = hist.get("nv", 0) + 1
+            count_vkinds(it[3], hist)
+            continue
+        if it[0] == "vl":
+            hist["vl"] = hist.get("vl", 0) + 1
+            hist["vl:entries"] = hist.get("vl:entries", 0) + len(it[5])
+            for _, _, val in it[5]:
+                count_vkinds(val, hist)
             continue
         k = it[0] + (":" + it[1] if it[0] == "p" else "")
         if it[0] in ("op", "sp") and it[1] == 0:
